@@ -77,7 +77,7 @@ fn get_tlds<P: AsRef<path::Path>>(p: P) -> ⟦(res: ⟧Result<Vec<path::PathBuf>
 }
 //!end
 
-//!fn src/app/out.rs out_delete rules=R10,R12 props=C19
+//!fn src/app/out.rs out_delete rules=R10,R17 props=C19
 pub(crate) fn out_delete(
     out_dir: &path::Path,
     input: &OutDeleteInput,
